@@ -44,7 +44,7 @@ ASSUMPTIONS = [
 KINDS = ("supervised", "semi", "unsup")
 
 
-EXPECTED_PROBES = ['precomputed_flag_switched_on_a_file_backed_model', 'refit_with_other_index_set', 'non_contiguous_data_set', 'non_float64_data_set', 'asymmetric_metric', 'call_raises_consistently', 'file_overwritten_after_a_model_read_it', 'fit_after_file_overwritten', 'integer_valued_metric', 'non_identity_index_array', 'path_overwritten', 'unsupervised_best_k_gt_1']
+EXPECTED_PROBES = ['unsupervised_fit_without_labels', 'precomputed_flag_switched_on_a_file_backed_model', 'refit_with_other_index_set', 'non_contiguous_data_set', 'non_float64_data_set', 'asymmetric_metric', 'call_raises_consistently', 'file_overwritten_after_a_model_read_it', 'fit_after_file_overwritten', 'integer_valued_metric', 'non_identity_index_array', 'path_overwritten', 'unsupervised_best_k_gt_1']
 
 SLOW_ARMS = ("restart",)
 
@@ -103,7 +103,7 @@ def gen_case(rng, arm, tier, k=0):
         metric = rng.choice(B.DTYPE_METRICS)
         D = [[float(int(abs(v)) % 4) for v in r] for r in D]
     mk = rng.randint(1, max(1, min(4, len(train) - 1)))
-    case = {"kind": kind, "metric": metric, "style": style, "ext": ext, "D": D, "Y": Y, "train": train, "unl": unl, "test": test, "max_k": mk, "min_k": rng.randint(1, mk), "dtype": dtype, "layout": rng.choice(("c", "c", "c", "f", "strided", "cols"))}
+    case = {"kind": kind, "metric": metric, "style": style, "ext": ext, "D": D, "Y": Y, "train": train, "unl": unl, "test": test, "max_k": mk, "min_k": rng.randint(1, mk), "dtype": dtype, "layout": rng.choice(("c", "c", "c", "f", "strided", "cols")), "no_labels": kind == "unsup" and rng.random() < 0.4}
     # an alternative selection/order of the labelled rows for re-fits of the same model objects
     if kind == "semi":
         tr2 = list(train)
@@ -305,6 +305,11 @@ def run_case(case):
                     if kind == "semi":
                         ra = attempt(A.fit, Xtr.copy(), Ytr.copy(), Xun.copy()) if off else attempt(A.fit, Xtr.copy(), Ytr.copy(), Xun.copy(), Itr.copy())
                         rb = attempt(Bm.fit, Xtr.copy(), Ytr.copy(), Xun.copy())
+                    elif case.get("no_labels") and kind == "unsup":
+                        # clustering without labels: the index array is passed by keyword
+                        ra = attempt(A.fit, Xtr.copy()) if off else attempt(lambda: A.fit(Xtr.copy(), I_train=Itr.copy()))
+                        rb = attempt(Bm.fit, Xtr.copy())
+                        bump(out.probes, "unsupervised_fit_without_labels")
                     else:
                         ra = attempt(A.fit, Xtr.copy(), Ytr.copy()) if off else attempt(A.fit, Xtr.copy(), Ytr.copy(), Itr.copy())
                         rb = attempt(Bm.fit, Xtr.copy(), Ytr.copy())
